@@ -21,6 +21,14 @@ for f in sorted(glob.glob(os.path.join(VERIF, 'evidence', 'C*.json'))):
     rows.append('| %s | %s | %s | %s | %s | %s | %s s |' % (e.get('property_id'), e.get('tier'), c.get('states'), c.get('transitions'), c.get('traces_validated_against_impl'),
                                                          c.get('distinct_nontrivial'), e.get('wall_s')))
 put('evidence', '\n'.join(rows))
+tp = os.path.join(VERIF, 'evidence_thorough', 'summary.txt')
+if os.path.exists(tp) and '<!-- BEGIN thorough -->' in s:
+    rows = ['| prop | result | states | transitions | validated | non-trivial | wall (thorough, 16 cores, machine shared with other runs) |', '|---|---|---|---|---|---|---|']
+    for ln in open(tp):
+        d = dict(kv.split('=', 1) for kv in ln.split()[1:] if '=' in kv)
+        rows.append('| %s | %s | %s | %s | %s | %s | %s |' % (ln.split()[0], 'silent' if d.get('rc') == '0' and d.get('unlisted_classes') == '0' else 'rc=' + d.get('rc', '?'),
+                                                          d.get('states'), d.get('transitions'), d.get('validated'), d.get('nontrivial'), d.get('wall')))
+    put('thorough', '\n'.join(rows))
 kf = json.load(open(os.path.join(VERIF, 'known_findings.json')))['findings']
 rows = ['| id | property | commit | what failed |', '|---|---|---|---|']
 for f in kf:
